@@ -331,6 +331,10 @@ class FnEffects:
                     elif isinstance(r, ClassInfo) and '__init__' in r.methods and r.module.name.startswith('yatiml'):
                         cands = [r.methods['__init__']]
                         recv = {'fresh'}
+                    elif r is None:
+                        cands = self.world.resolve_local_callable(self.fi, n.func.id)
+                        if cands:
+                            recv = {'self'}
                 if cands:
                     self.call_sites.append((n, cands))
                     for c in cands:
@@ -466,6 +470,18 @@ class World:
             else:
                 out.add(r)
         return out or {'fresh'}
+
+    def resolve_local_callable(self, caller: FunctionInfo, name: str) -> List[FunctionInfo]:
+        """a call `v(...)` through a local that was bound to method references (`v = self.__recognize_list`): all of them"""
+        out: List[FunctionInfo] = []
+        for n in walk_function(caller.node):
+            if isinstance(n, ast.Assign) and any(isinstance(t, ast.Name) and t.id == name for t in n.targets) \
+                    and isinstance(n.value, ast.Attribute) and isinstance(n.value.value, ast.Name) \
+                    and n.value.value.id in ('self', 'cls') and caller.cls is not None:
+                m = self.P.lookup_method(caller.cls, n.value.attr)
+                if m is not None and m.module.name.startswith('yatiml') and m not in out:
+                    out.append(m)
+        return out
 
     def resolve_method(self, caller: FunctionInfo, call: ast.Call) -> List[FunctionInfo]:
         f = call.func
